@@ -1069,6 +1069,10 @@ func genSecSign(g *Gen) {
 			genSecAuto(g)
 			continue
 		}
+		if h%9 == 4 { // stale wallet x block-file offsets, wrong passphrase x unresolvable input (gen_sec_stale.go)
+			genSecStale(g)
+			continue
+		}
 		l := newLedGen(g, "sec")
 		l.start(1 + g.Rng.Intn(2))
 		s := &signGen{l: l, g: g, r: g.Rng}
